@@ -233,6 +233,10 @@ func (c *Decoder) decodeInteger(frame *Frame) (*ast.Integer, error) {
 		return nil, errors.WithStack(err)
 	}
 
+	if len(buf) < 8 {
+		return nil, decodeError(fmt.Errorf("INTEGER_VALUE frame must have at least 8 bytes but got %d", len(buf)))
+	}
+
 	v := binary.BigEndian.Uint64(buf[:8])
 	integer := &ast.Integer{
 		Value: int64(v),
@@ -251,6 +255,10 @@ func (c *Decoder) decodeFloat(frame *Frame) (*ast.Float, error) {
 	buf, err := frame.Read(c.r)
 	if err != nil {
 		return nil, errors.WithStack(err)
+	}
+
+	if len(buf) < 8 {
+		return nil, decodeError(fmt.Errorf("FLOAT_VALUE frame must have at least 8 bytes but got %d", len(buf)))
 	}
 
 	bits := binary.BigEndian.Uint64(buf[:8])
